@@ -188,6 +188,11 @@ std::string FileLister::addFiles(std::list<FileWithDetails> &files, const std::s
 ///////////////////////////////////////////////////////////////////////////////
 
 #include <dirent.h>
+#ifdef DANMAR_CPPCHECK_VERIF
+#include <cstdlib>
+#include <utility>
+#include <vector>
+#endif
 #include <sys/stat.h>
 #include <cerrno>
 
@@ -232,7 +237,32 @@ static std::string addFiles2(std::list<FileWithDetails> &files,
     std::string new_path = path;
     new_path += '/';
 
+#ifdef DANMAR_CPPCHECK_VERIF
+    // verification hook: VERIF_DIRSEED=<n> processes the entries of every directory in a permuted order
+    // (the order in which readdir returns entries is unspecified; the result must not depend on it)
+    std::vector<dirent> verifEntries;
+    std::size_t verifPos = 0;
+    const char* const verifSeed = std::getenv("VERIF_DIRSEED");
+    if (verifSeed) {
+        while (const dirent* e = readdir(dir))
+            verifEntries.push_back(*e);
+        unsigned long long s = std::strtoull(verifSeed, nullptr, 10);
+        for (const char c : path)
+            s = s * 1099511628211ULL + static_cast<unsigned char>(c);
+        for (std::size_t i = verifEntries.size(); i > 1; --i) {
+            s = s * 6364136223846793005ULL + 1442695040888963407ULL;
+            std::swap(verifEntries[i - 1], verifEntries[static_cast<std::size_t>((s >> 33) % i)]);
+        }
+    }
+    const auto verifNext = [&]() -> const dirent* {
+        if (!verifSeed)
+            return readdir(dir);
+        return verifPos < verifEntries.size() ? &verifEntries[verifPos++] : nullptr;
+    };
+    while (const dirent* dir_result = verifNext()) {
+#else
     while (const dirent* dir_result = readdir(dir)) {
+#endif
         if ((std::strcmp(dir_result->d_name, ".") == 0) ||
             (std::strcmp(dir_result->d_name, "..") == 0))
             continue;
